@@ -368,6 +368,7 @@ class Interp:
                     decs = [ast.unparse(d) for d in node.decorator_list]
                     if "property" in decs: return self.call(f, [], {})
                     if "classmethod" in decs: f.self_obj = o.cls
+                    if "staticmethod" in decs: f.self_obj = None          # no implicit first argument (found by a benign refactoring: a static helper was called with `self` prepended)
                     return f
                 k, cv = self.find_class_attr(o.cls, a)
                 if cv is not None: return self.ev(cv, dict(k.module.globals), k.module)
